@@ -256,7 +256,7 @@ carquet_status_t carquet_read_dictionary_page(
             }
             reader->dictionary_offsets[i] = (uint32_t)(dict_ptr - page_data);
             uint32_t len = carquet_read_u32_le(dict_ptr);
-            size_t entry_size = 4 + len;
+            size_t entry_size = (size_t)4 + len;  /* in size_t: 4 + len wraps in 32 bits for len >= 0xFFFFFFFC */
             if (dict_remaining < entry_size) {
                 free(reader->dictionary_data);
                 free(reader->dictionary_offsets);
